@@ -296,6 +296,20 @@ def json_model():
             b = t.encode('utf-8')
         except UnicodeEncodeError:
             continue
+    lim = jsonmodel.native_depth_limit()
+    old_rl = sys.getrecursionlimit()
+    sys.setrecursionlimit(max(old_rl, 400000))
+    try:
+        for k in (lim - 1, lim, lim + 1, 3 * lim):
+            for op, cl in (('[', ']'), ('{"a":', '}')):
+                t = op * k + '1' + cl * k
+                a = run_native(lambda: type(json.loads(t)).__name__)
+                b = run_native(lambda: type(jsonmodel.loads(lift(t))).__name__.replace('SymDict', 'dict'))
+                if not same(a, b):
+                    raise Mismatch('json nesting depth %d %r: native %r != model %r' % (k, op, a, b))
+                n += 1
+    finally:
+        sys.setrecursionlimit(old_rl)
     for v in JSON_VALUES:
         for kw in ({}, dict(indent=4, sort_keys=True, separators=(',', ': ')), dict(ensure_ascii=False, indent=2), dict(sort_keys=True)):
             a = run_native(lambda: json.dumps(v, **kw))
